@@ -42,6 +42,7 @@ class SimRandom:
         self.decisions = []
         self.last_v1 = None        # set by the quaternion tap: the vector about to be rotated
         self.last_sample = None    # indices selected by the last sample() call
+        self.last_sample_idx, self.last_sample_n = None, None
 
     # -- helpers
     def _policy(self, site):
@@ -114,6 +115,7 @@ class SimRandom:
         if 0 < k < n:
             self.ctx.count("sample_calls_with_0<k<M")
         self.last_sample = [population[i] for i in idx]
+        self.last_sample_idx, self.last_sample_n = [int(i) for i in idx], n     # WHICH members of the population, whatever they are
         return [population[i] for i in idx]
 
     def shuffle(self, x):
@@ -388,6 +390,18 @@ class SimTextFile(io.TextIOBase):
     def flush(self):
         if self.closed_:
             return
+        frac = self.script.get("enospc_at_close")
+        if frac is not None and self.mode_ != "r" and self.pending and not getattr(self, "_close_fault_fired", False):
+            # a buffered writer on a full device: every write() was accepted into the buffer, the error only surfaces when the
+            # buffer is flushed (at the latest by close()); part of the buffer may have reached the device
+            self._close_fault_fired = True
+            cur = self.fs.files.get(self.path_, "")
+            self.fs.files[self.path_] = cur + self.pending[:int(len(self.pending) * float(frac))]
+            self.pending = ""
+            self.fs.stat("enospc_fired")
+            self.fs.stat("errors_at_close")
+            self.fs.ctx.event("fs", "fault", "enospc_at_close", self.path_)
+            raise SimFault(errno.ENOSPC, "No space left on device (simulated, reported when the buffer was flushed)", self.path_)
         if self.mode_ != "r" and self.pending:
             torn = self.script.get("torn_at")
             cur = self.fs.files.get(self.path_, "")
@@ -405,10 +419,13 @@ class SimTextFile(io.TextIOBase):
     def close(self):
         if self.closed_:
             return
-        self.flush()
-        self.closed_ = True
-        self.fs.stat("closes")
-        self.fs.ctx.event("fs", "close", self.path_)
+        try:
+            self.flush()
+        finally:
+            # like a real file object: closed even if the final flush failed (the error still propagates)
+            self.closed_ = True
+            self.fs.stat("closes")
+            self.fs.ctx.event("fs", "close", self.path_)
 
     def __enter__(self):
         self._check_open()
